@@ -2,7 +2,7 @@
    pointer-level reading of well-formedness (HeapOK). *)
 From Coq Require Import List ZArith Bool Arith Lia Permutation.
 From NT Require Import Sx Rose ListFacts RoseFacts Surgery SurgeryFacts Machine WF MachineFacts PreserveSteps PreserveOps
-  PreserveKeepClones Invariant Heap HeapProofs HeapRemove HeapMore HeapMove HeapShort HeapKeep.
+  PreserveKeepClones Invariant Heap HeapProofs HeapRemove HeapMore HeapMove HeapShort HeapKeep HeapData.
 Import ListNotations.
 
 (* operations whose simulation proof is closed *)
@@ -18,6 +18,8 @@ Definition covered_heap (o : op) : bool :=
   | ONewTree _ _ => true
   | ODel _ _ => true
   | OShort _ _ _ _ _ _ => true
+  | OSetData _ _ _ _ _ => true
+  | ORename _ _ _ => true
   | _ => false
   end.
 
@@ -33,6 +35,8 @@ Proof.
   - destruct keep; [now apply sim_op_remove_keep|now apply sim_op_remove_plain].
   - now apply sim_op_remove_children.
   - destruct deep; [discriminate C|]. now apply sim_op_sort_flat.
+  - now apply sim_op_set_data.
+  - now apply sim_op_rename.
   - now apply sim_op_meta.
   - split; [cbn [fst]; f_equal; f_equal; destruct RW as [_ F]; now rewrite (Forall2_length' _ _ _ F)|].
     cbn [snd]. destruct RW as [E F]. constructor; [exact E|]. cbn. apply Forall2_app; [assumption|]. constructor; [apply Rep_empty|constructor].
